@@ -252,3 +252,6 @@ _register()
 # ("statistics taken from a common prefix" is a clause of this property) - C09's constructor contract, discharged again here
 from . import c09 as _C9
 contract('C02', 'requantiser_components_share_the_schedule', functions=[_C9.CQ + '.__init__', _C9.RQ + '.__init__'])(_C9.complex_quantizer_init)
+# "samples are exactly the requantised PFB output": the requantisation itself - round-half-even of the rescaled value clipped to the whole
+# signed b-bit range [-2^(b-1), 2^(b-1)-1], for 2..8 bits - is C09's quantize_real contract, discharged again here
+contract('C02', 'requantisation_formula_and_full_code_range', functions=[_C9.Q + ':quantize_real'])(_C9.quantize_real)
